@@ -32,7 +32,7 @@ ASSUMPTIONS = [
     "tuple labels of the grouped axis are compared element-wise only when all member axes are of one kind (NumPy coerces mixed tuples)",
 ]
 MANDATORY = ["flatten:subset", "flatten:noncontiguous", "flatten:reordered", "flatten:insert", "flatten:set", "flatten:reverse", "flatten:all",
-             "unflatten", "reshape", "reshape:newdim", "reshape:drop-singleton", "reshape:transpose=False", "unflatten:after-indexing-another-dimension", "tuple-reduction", "tuple-reduction:skipna-uneven-nan", "ndim:4", "square"]
+             "unflatten", "reshape", "reshape:newdim", "reshape:drop-singleton", "reshape:transpose=False", "unflatten:after-indexing-another-dimension", "tuple-reduction", "tuple-reduction:one-dimension", "tuple-reduction:skipna-uneven-nan", "ndim:4", "square"]
 
 ATTRS = {"units": "m"}
 
@@ -331,6 +331,23 @@ def run_case(case):
     def t_tuple():
         if nd < 2:
             return
+        # a tuple / list naming ONE dimension is a group of one: the same as naming the dimension itself
+        for d in dims:
+            for red in ("sum", "mean", "max", "cumsum", "argmax"):
+                for tname, targ in (("tuple of one name", (d,)), ("list of one position", [dims.index(d)])):
+                    what = "%s(axis=%s) vs %s(axis=%r) dims=%s" % (red, tname, red, d, dims)
+                    sig = {"op": "tuple-of-one"}
+                    x = lib(lambda: getattr(a, red)(axis=targ), what=what, sig=sig)
+                    y = lib(lambda: getattr(a, red)(axis=d), what=what, sig=sig)
+                    if hasattr(y, "dims") and red != "cumsum":
+                        core.expect_equal_arrays(x, y, what, tol=True, sig=sig)
+                    elif hasattr(y, "dims"):
+                        # cumsum over a group of one keeps the values, the group is named after its member and comes first
+                        y2 = lib(lambda: a.flatten((d,), insert=0).cumsum(axis=0), what=what, sig=sig)
+                        core.expect_equal_arrays(x, y2, what + " [flatten((d,), insert=0).cumsum(axis=0)]", tol=True, sig=sig)
+                    else:
+                        check(core.same_scalar(x, y, tol=True), "tuple-of-one", {"what": what, "got": core.jsonable(x), "expected": core.jsonable(y)}, sig)
+        cl.add("tuple-reduction:one-dimension")
         for pair in itertools.permutations(dims, 2):
             for red in ("mean", "sum", "max"):
                 what = "%s(axis=%s) vs flatten(insert=0).%s(axis=0) dims=%s" % (red, pair, red, dims)
